@@ -14,19 +14,33 @@ import (
 )
 
 // marshalToBytes runs the real marshaler; a panic is returned, not propagated.
+// Whatever was written before the panic is still returned.
 func marshalToBytes(m graphql.Marshaler) (out []byte, pan any) {
+	var buf bytes.Buffer
 	defer func() {
 		if r := recover(); r != nil {
 			pan = r
 		}
+		out = buf.Bytes()
 	}()
-	var buf bytes.Buffer
 	m.MarshalGQL(&buf)
-	return buf.Bytes(), nil
+	return nil, nil
 }
 
 // decodeJSON decodes the way gqlgen's transports do (UseNumber).
 func decodeJSON(b []byte) (any, error) {
+	hasDigit := false
+	for _, ch := range b {
+		if ch >= '0' && ch <= '9' {
+			hasDigit = true
+			break
+		}
+	}
+	if !hasDigit { // no number token possible: UseNumber cannot matter, skip the Decoder's buffer
+		var v any
+		err := json.Unmarshal(b, &v)
+		return v, err
+	}
 	dec := json.NewDecoder(bytes.NewReader(b))
 	dec.UseNumber()
 	var v any
@@ -186,9 +200,6 @@ func checkWire(out []byte, pan any, expected any, hasInvalid bool) (dec any, cla
 			}
 		}
 		return nil, "invalid-json:" + e.Kind, fmt.Sprintf("output %s is not a strict JSON text: %s at offset %d", show(out), e.Kind, e.Off)
-	}
-	if !json.Valid(out) {
-		common.Broken("strict validator accepted %s but encoding/json rejects it", show(out))
 	}
 	d, err := decodeJSON(out)
 	if err != nil {
